@@ -1,11 +1,259 @@
-/- C04 — property theorems (being filled). -/
-import SkNet.Model.Rank
-import SkNet.Spec.Rank
+/-
+C04 — centrality scores equal their mathematical definitions, whatever the solver.
+
+The model is SkNet/Model/Rank.lean (mirror of linalg/ppr_solver.py, diteration.pyx, push.pyx, polynome.py,
+ranking/*.py); the specification is SkNet/Spec/Rank.lean.  All theorems are about `α := ℚ`; float rounding is
+outside them (DESIGN 8).  `IsPageRank n w a y x` : `x` is the probability vector proportional to the solution of
+`x = a Pᵀ x + (1-a) y`, `P` the transition matrix of the weights `w` with null rows on sinks.
+
+Throughout, `g : Graph ℚ` is a CSR matrix (rows of stored `(column, value)` pairs), `entry g i j` its entry,
+`g.Nonneg` : stored values `≥ 0`, `g.InRange` : stored columns `< g.n` (what scipy guarantees).
+-/
+import SkNet.Lemmas.RankPower
+import SkNet.Lemmas.RankKatz
+import SkNet.Lemmas.RankExists
+
+open Finset
 
 namespace SkNet.C04
-open SkNet SkNet.Rank
+open SkNet SkNet.Rank SkNet.RankSpec SkNet.RankL1
 
-/-- `Polynome.__init__` refuses an empty coefficient array. -/
-theorem horner_empty (n : Nat) (mv : List Rat → List Rat) (x : List Rat) : horner n mv [] x = none := rfl
+/-! ## the specification is well posed -/
+
+theorem transP_subStoch (n : ℕ) (w : ℕ → ℕ → ℚ) (hw : ∀ i j, 0 ≤ w i j) : SubStoch n (transP n w) where
+  nonneg := by
+    intro i j; unfold transP
+    have h0 : 0 ≤ outW n w i := by unfold outW; rw [sumTo_eq]; exact sum_nonneg fun j _ => hw i j
+    split
+    · exact le_refl _
+    · exact div_nonneg (hw i j) h0
+  row_le := by
+    intro i; unfold transP
+    by_cases h : outW n w i = 0
+    · simp [h]
+    · simp only [h, if_false]
+      rw [← sum_div]
+      have : ∑ j ∈ range n, w i j = outW n w i := by unfold outW; rw [sumTo_eq]
+      rw [this, div_self h]
+
+theorem isPageRank_iff_isPR (n : ℕ) (w : ℕ → ℕ → ℚ) (a : ℚ) (y x : ℕ → ℚ) :
+    IsPageRank n w a y x ↔ ∃ c, IsPR n (transP n w) a y x c := by
+  have hd : ∀ i, dampedPT n w a x i = a * PT n (transP n w) x i := by
+    intro i; unfold dampedPT PT; rw [sumTo_eq]
+  unfold IsPageRank
+  rw [sumTo_eq]
+  constructor
+  · rintro ⟨h0, h1, c, hc⟩
+    exact ⟨c, h0, h1, fun i hi => by rw [hc i hi, hd]⟩
+  · rintro ⟨c, h⟩
+    exact ⟨h.nonneg, h.sum_one, c, fun i hi => by rw [hd]; exact h.eq i hi⟩
+
+/-- ★ `prSpec_unique` : for non-negative weights, `0 ≤ a < 1` and a restart distribution `y`, there is at most one
+    probability vector proportional to the solution of `x = a Pᵀ x + (1-a) y` (`I − a Pᵀ` is injective:
+    `(1−a)‖d‖₁ ≤ ‖(I − a Pᵀ) d‖₁`). -/
+theorem prSpec_unique (n : ℕ) (w : ℕ → ℕ → ℚ) (hw : ∀ i j, 0 ≤ w i j) (a : ℚ) (ha : 0 ≤ a) (ha1 : a < 1)
+    (y : ℕ → ℚ) (hy : sumTo n y = 1) (x x' : ℕ → ℚ)
+    (hx : IsPageRank n w a y x) (hx' : IsPageRank n w a y x') : ∀ i, i < n → x i = x' i := by
+  rw [sumTo_eq] at hy
+  obtain ⟨c, h⟩ := (isPageRank_iff_isPR n w a y x).mp hx
+  obtain ⟨c', h'⟩ := (isPageRank_iff_isPR n w a y x').mp hx'
+  exact (h.unique (transP_subStoch n w hw) ha ha1 hy h').2
+
+/-- ★ `prSpec_exists` : under the same hypotheses the PageRank vector exists (`I − a Pᵀ` is injective on a
+    finite-dimensional space, hence surjective; the solution is non-negative by the M-matrix argument and its sum
+    is at least 1). With `prSpec_unique`: `prSpec a P y` is well defined. -/
+theorem prSpec_exists (n : ℕ) (w : ℕ → ℕ → ℚ) (hw : ∀ i j, 0 ≤ w i j) (a : ℚ) (ha : 0 ≤ a) (ha1 : a < 1)
+    (y : ℕ → ℚ) (hy0 : ∀ i, 0 ≤ y i) (hy : sumTo n y = 1) : ∃ x, IsPageRank n w a y x := by
+  rw [sumTo_eq] at hy
+  obtain ⟨π, c, h⟩ := exists_isPR (transP_subStoch n w hw) ha ha1 (fun i _ => hy0 i) hy
+  exact ⟨π, (isPageRank_iff_isPR n w a y π).mpr ⟨c, h⟩⟩
+
+/-- the executable form of the specification (used by the driver before it trusts an eliminated solution) is sound -/
+theorem isPageRankB_sound (n : ℕ) (w : ℕ → ℕ → ℚ) (a : ℚ) (y x : ℕ → ℚ) (h : isPageRankB n w a y x = true) :
+    IsPageRank n w a y x := by
+  unfold isPageRankB at h
+  simp only [Bool.and_eq_true, List.all_eq_true, List.mem_range, decide_eq_true_eq, beq_iff_eq] at h
+  obtain ⟨⟨h0, h1⟩, h2⟩ := h
+  exact ⟨h0, h1, _, h2⟩
+
+/-- non-vacuity: the two-node graph `0 → 1`, `1 → {0, 1}` with `a = 1/2` and the uniform restart has the
+    PageRank vector `(2/5, 3/5)`. -/
+example : IsPageRank 2 (fun i j => if i = 0 then (if j = 1 then 1 else 0) else if i = 1 then (if j < 2 then 1 else 0) else 0)
+    (1/2) (fun _ => 1/2) (fun i => if i = 0 then 2/5 else if i = 1 then 3/5 else 0) :=
+  isPageRankB_sound _ _ _ _ _ (by decide +kernel)
+
+/-- ★ `prSpec_is_surfer` : a probability vector is the PageRank vector iff it is a stationary distribution of the
+    random surfer who follows an out-link with probability `a`, otherwise restarts from `y`, and always restarts
+    from a node without out-links. -/
+theorem prSpec_is_surfer (n : ℕ) (w : ℕ → ℕ → ℚ) (a : ℚ) (y : ℕ → ℚ) (hy : sumTo n y = 1)
+    (x : ℕ → ℚ) : IsSurferStationary n w a y x ↔ IsPageRank n w a y x := by
+  rw [sumTo_eq] at hy
+  have hsink : ∀ i, outW n w i = 0 → ∀ j, transP n w i j = 0 := by
+    intro i h j; unfold transP; simp [h]
+  have hrow : ∀ i, ¬ outW n w i = 0 → ∑ j ∈ range n, transP n w i j = 1 := by
+    intro i h; unfold transP
+    simp only [h, if_false]
+    rw [← sum_div]
+    have : ∑ j ∈ range n, w i j = outW n w i := by unfold outW; rw [sumTo_eq]
+    rw [this, div_self h]
+  have hM : ∀ i j, surferM n w a y i j = surfer (transP n w) (fun i => outW n w i = 0) a y i j := by
+    intro i j; unfold surferM surfer; rfl
+  rw [isPageRank_iff_isPR]
+  unfold IsSurferStationary
+  rw [sumTo_eq]
+  constructor
+  · rintro ⟨h0, h1, hst⟩
+    refine (stationary_iff_isPR (fun i => outW n w i = 0) hsink hrow h0 h1 hy).mp ?_
+    intro j hj
+    rw [hst j hj, sumTo_eq]
+    exact sum_congr rfl fun i _ => by rw [hM]
+  · rintro ⟨c, hpr⟩
+    refine ⟨hpr.nonneg, hpr.sum_one, fun j hj => ?_⟩
+    rw [(stationary_iff_isPR (fun i => outW n w i = 0) hsink hrow hpr.nonneg hpr.sum_one hy).mpr ⟨c, hpr⟩ j hj,
+      sumTo_eq]
+    exact sum_congr rfl fun i _ => by rw [hM]
+
+/-! ## Ruffini–Horner, `solver='RH'`, Katz -/
+
+/-- ★ `horner_eq_powersum` : `Polynome._matvec` evaluates `Σ_k coeffs[k] · Mᵏ x`, for every operator that acts on
+    lists as the matrix `M` acts on vectors. -/
+theorem horner_eq_powersum (n : ℕ) (M : ℕ → ℕ → ℚ) (mv : List ℚ → List ℚ) (hmv : ActsAs n mv M)
+    (coeffs x out : List ℚ) (h : horner n mv coeffs x = some out) :
+    ∀ i, i < n → out.getD i 0 = polyApply n M coeffs (fun j => x.getD j 0) i :=
+  horner_eq_polyApply n M mv hmv coeffs x out h
+
+/-- non-vacuity: the damped transposed transition operator of the model acts as its matrix -/
+example (g : Graph ℚ) (a : ℚ) : ActsAs g.n (dampedT g a) (dampedM g a) := dampedT_actsAs g a
+
+/-- ★ `rh_error` : `solver='RH'` with `n_iter = K` returns a vector within `2 a^{K+1}/(1−a)` (ℓ1) of the PageRank
+    vector — the budget is sufficient once this is below the tolerance. -/
+theorem rh_error (g : Graph ℚ) (hg : g.Nonneg) (hr : g.InRange) (a : ℚ) (ha : 0 ≤ a) (ha1 : a < 1)
+    (y : List ℚ) (hy0 : ∀ i, 0 ≤ y.getD i 0) (hy1 : sumTo g.n (fun i => y.getD i 0) = 1)
+    (π : ℕ → ℚ) (hπ : IsPageRank g.n (entry g) a (fun i => y.getD i 0) π) (K : ℕ) :
+    sumTo g.n (fun i => |(rh g a y K).getD i 0 - π i|) ≤ 2 * (a ^ (K + 1) / (1 - a)) := by
+  rw [sumTo_eq] at hy1 ⊢
+  obtain ⟨c, h⟩ := (isPageRank_iff hg hr a _ π).mp hπ
+  exact rh_close hg hr ha ha1 y hy0 hy1 h K
+
+/-- ★ `katz_eq_def` : `Katz(damping_factor=a, path_length=K).scores_[i] = Σ_{k=1..K} aᵏ·#{walks of length k ending at i}`
+    `= (Σ_{k=1..K} aᵏ (Aᵀ)ᵏ 1)_i` on the boolean adjacency. -/
+theorem katz_eq_def (n : ℕ) (edge : ℕ → ℕ → Bool) (a : ℚ) (K : ℕ) :
+    ∀ i, i < n → (katz n edge a K).getD i 0 = katzSpec n edge a K i :=
+  katz_eq_spec n edge a K
+
+/-! ## power iteration with the repaired `RandomSurferOperator` (F10) -/
+
+/-- ★ `surfer_operator_fixed_point` (first half): one `_matvec` of the repaired operator is one step of the surfer
+    chain, `x ↦ a Qᵀ x + (1−a)·y·Σx` with `Q` = transition matrix whose sink rows are replaced by `y`; the PageRank
+    vector is a fixed point. -/
+theorem surfer_operator_fixed_point (g : Graph ℚ) (hg : g.Nonneg) (hr : g.InRange) (a : ℚ)
+    (y : List ℚ) (hy1 : sumTo g.n (fun i => y.getD i 0) = 1)
+    (π : ℕ → ℚ) (hπ : IsPageRank g.n (entry g) a (fun i => y.getD i 0) π) (s : List ℚ)
+    (hs : ∀ i, i < g.n → s.getD i 0 = π i) :
+    ∀ i, i < g.n → (surferStep g a y s).getD i 0 = π i := by
+  rw [sumTo_eq] at hy1
+  obtain ⟨c, h⟩ := (isPageRank_iff hg hr a _ π).mp hπ
+  intro i hi
+  rw [surferStep_getD hg a y s i hi, stepF_congr g a (vec y) (vec s) π hs i]
+  exact stepF_fixed hg hr hy1 h i hi
+
+/-- ★ `piter_error` : `solver='piteration'` with `n_iter = K` and no early stop (`tol ≤ 0`) is within `2 a^K` (ℓ1) of
+    the PageRank vector: each step contracts the ℓ1 distance to it by the factor `a`. -/
+theorem piter_error (g : Graph ℚ) (hg : g.Nonneg) (hr : g.InRange) (a : ℚ) (ha : 0 ≤ a) (ha1 : a < 1)
+    (y : List ℚ) (hy0 : ∀ i, 0 ≤ y.getD i 0) (hy1 : sumTo g.n (fun i => y.getD i 0) = 1)
+    (π : ℕ → ℚ) (hπ : IsPageRank g.n (entry g) a (fun i => y.getD i 0) π) (tol : ℚ) (htol : tol ≤ 0) (K : ℕ) :
+    sumTo g.n (fun i => |(piteration g a y K tol).getD i 0 - π i|) ≤ 2 * a ^ K := by
+  rw [sumTo_eq] at hy1 ⊢
+  obtain ⟨c, h⟩ := (isPageRank_iff hg hr a _ π).mp hπ
+  exact piter_close hg hr ha ha1 y hy0 hy1 h htol K
+
+/-! ## D-iteration -/
+
+/-- ★ `diter_invariant` : for every sequence of atomic node activations, in any order,
+    `(I − a Pᵀ)·scores + fluid = fluid₀` (`P` = the matrix of the data handed to the kernel). -/
+theorem diter_invariant (g : Graph ℚ) (hr : g.InRange) (a r : ℚ) (F0 : ℕ → ℚ) (st : DState ℚ)
+    (h : DInv g a F0 st) (ks : List ℕ) : DInv g a F0 (activate g a r st ks) :=
+  h.activate hr r ks
+
+/-- ★ `diter_mass` : under the same activations fluid and scores stay non-negative and `residu` stays the total
+    fluid: it decreases by `(1−a)·sent` at a node with out-links and by `sent` at a sink. -/
+theorem diter_mass (g : Graph ℚ) (hg : g.Nonneg) (hr : g.InRange) (hs : g.RowStoch) (a : ℚ) (ha : 0 ≤ a)
+    (F0 : ℕ → ℚ) (st : DState ℚ) (hI : DInv g a F0 st) (hM : DMass g st) (ks : List ℕ) :
+    DMass g (activate g a (1 - a) st ks) :=
+  hM.activate hg hr hs ha ks hI
+
+/-- the loop of the kernel is such a sequence of activations (sweeps `0, …, n−1`, stopped by the test on `residu`) -/
+theorem diffusion_is_activations (g : Graph ℚ) (a r tol : ℚ) (K : ℕ) (st : DState ℚ) :
+    ∃ ks : List ℕ, diterLoop g a r tol K st = activate g a r st ks :=
+  diterLoop_activations g a r tol K st
+
+/-- ★ `diter_error` : wherever the kernel stops, `(1−a)·‖z − scores‖₁ ≤ residu` for the solution `z` of
+    `z − a Pᵀ z = fluid₀`; in particular the result depends on the schedule of atomic activations only through
+    `residu`, and when the stopping test `residu < tol·(1−a)` has fired the distance is below `tol`. -/
+theorem diter_error (g : Graph ℚ) (hg : g.Nonneg) (hr : g.InRange) (hs : g.RowStoch) (a : ℚ) (ha : 0 ≤ a)
+    (hP : SubStoch g.n (entry g)) (fluid0 : List ℚ) (hlen : fluid0.length = g.n) (hf0 : ∀ i, 0 ≤ fluid0.getD i 0)
+    (hsum : sumTo g.n (fun i => fluid0.getD i 0) = 1 - a) (K : ℕ) (tol : ℚ)
+    (z : ℕ → ℚ) (hz : ∀ i, i < g.n → z i - a * PT g.n (entry g) z i = fluid0.getD i 0) :
+    let st := diffusion g (tab g.n fun _ => 0) fluid0 a K tol
+    (1 - a) * sumTo g.n (fun i => |z i - st.scores.getD i 0|) ≤ st.residu := by
+  intro st
+  rw [sumTo_eq] at hsum ⊢
+  have hI0 : DInv g a (fun i => fluid0.getD i 0)
+      { scores := tab g.n fun _ => 0, fluid := fluid0, residu := 1 - a } := by
+    refine ⟨by simp, hlen, fun i hi => ?_⟩
+    have : PT g.n (entry g) (fun j => (tab g.n fun _ => (0 : ℚ)).getD j 0) i = 0 := by
+      unfold PT; apply sum_eq_zero; intro j _
+      show entry g j i * (tab g.n fun _ => (0 : ℚ)).getD j 0 = 0
+      rw [tab_getD]; simp
+    show (tab g.n fun _ => (0 : ℚ)).getD i 0
+      - a * PT g.n (entry g) (fun j => (tab g.n fun _ => (0 : ℚ)).getD j 0) i + fluid0.getD i 0 = fluid0.getD i 0
+    rw [this, tab_getD, if_pos hi]; ring
+  have hM0 : DMass g { scores := tab g.n fun _ => (0 : ℚ), fluid := fluid0, residu := 1 - a } :=
+    ⟨hf0, fun i => by simp only [tab_getD]; split <;> exact le_refl _, hsum.symm⟩
+  obtain ⟨ks, hks⟩ := diterLoop_activations g a (1 - a) tol K
+    { scores := tab g.n fun _ => (0 : ℚ), fluid := fluid0, residu := 1 - a }
+  have hst : st = activate g a (1 - a) { scores := tab g.n fun _ => (0 : ℚ), fluid := fluid0, residu := 1 - a } ks := hks
+  rw [hst]
+  exact diffusion_residual hP ha (hI0.activate hr (1 - a) ks) (hM0.activate hg hr hs ha ks hI0) z hz
+
+/-! ## closeness -/
+
+/-- ★ `closeness_eq_def` : `Closeness.scores_[i] = (n−1) / Σ_j d(i,j)` where `d(i,·)` is the row of hop distances
+    computed by `get_distances` (exact by C10), and `0` when some node is unreachable from `i`. -/
+theorem closeness_eq_def (n : ℕ) (hn : 0 < n) (dist : List (List ℤ)) (i : ℕ) (hi : i < n) :
+    (closenessOf n dist : List ℚ).getD i 0
+      = if (dist.getD i []).any (· < 0) then 0
+        else ((n : ℚ) - 1) / (((dist.getD i []).foldl (· + ·) 0 : ℤ) : ℚ) :=
+  closenessOf_eq n hn dist i hi
+
+/-! ## push (F-push: the kernel as written does not compute PageRank) -/
+
+/-- the two-node graph `0 → 1`, `1 → {0, 1}` -/
+def pushWitness : Graph ℚ :=
+  { n := 2, row := fun i => if i = 0 then [(1, 1)] else if i = 1 then [(0, 1), (1, 1)] else [] }
+
+theorem pushWitness_nonneg : pushWitness.Nonneg := by
+  intro i p hp
+  unfold pushWitness at hp
+  simp only at hp
+  split at hp
+  · simp at hp; subst hp; norm_num
+  · split at hp
+    · simp at hp; rcases hp with rfl | rfl <;> norm_num
+    · simp at hp
+
+/-- ★ `push_as_written_wrong` : on the witness graph (its transpose has the same rows), uniform restart, damping 1/2,
+    the model of `push_pagerank` as written returns `(53/121, 68/121)` even at tolerance 0, which is not the PageRank
+    vector `(2/5, 3/5)`. -/
+theorem push_as_written_wrong :
+    pushPagerank pushWitness pushWitness [1, 2] [1/2, 1/2] (1/2) 0 100 = some [53/121, 68/121] ∧
+    ¬ IsPageRank 2 (entry pushWitness) (1/2) (fun _ => 1/2) (fun i => ([53/121, 68/121] : List ℚ).getD i 0) := by
+  refine ⟨by decide +kernel, fun h => ?_⟩
+  have hpr : IsPageRank 2 (entry pushWitness) (1/2) (fun _ => 1/2) (fun i => ([2/5, 3/5] : List ℚ).getD i 0) :=
+    isPageRankB_sound _ _ _ _ _ (by decide +kernel)
+  have := prSpec_unique 2 (entry pushWitness) (fun i j => entry_nonneg pushWitness_nonneg i j) (1/2) (by norm_num)
+    (by norm_num) (fun _ => 1/2) (by decide +kernel) _ _ h hpr 0 (by norm_num)
+  revert this
+  decide +kernel
 
 end SkNet.C04
